@@ -56,6 +56,13 @@ impl FileLock {
             })?;
             // If the lock was already held, block until it's released, or (in
             // non-blocking mode) report that it's currently unavailable.
+            #[cfg(jj_vcs_jj_verif)]
+            crate::verif_hooks::point("lock.before", &path.display());
+            #[cfg(jj_vcs_jj_verif)]
+            if crate::verif_hooks::locks_disabled() {
+                crate::verif_hooks::point("lock.acquired", &path.display());
+                return Ok(Some(Self { path, file }));
+            }
             match rustix::fs::flock(&file, operation) {
                 Ok(()) => {}
                 Err(rustix::io::Errno::WOULDBLOCK) if !blocking => return Ok(None),
@@ -96,6 +103,8 @@ impl FileLock {
             }
 
             tracing::info!("Locked {path:?}");
+            #[cfg(jj_vcs_jj_verif)]
+            crate::verif_hooks::point("lock.acquired", &path.display());
             return Ok(Some(Self { path, file }));
         }
     }
@@ -110,5 +119,9 @@ impl Drop for FileLock {
         // They're responsible for creating and locking a new lockfile, since we
         // just deleted this one.
         rustix::fs::flock(&self.file, FlockOperation::Unlock).ok();
+        #[cfg(jj_vcs_jj_verif)]
+        if !std::thread::panicking() {
+            crate::verif_hooks::point("lock.released", &self.path.display());
+        }
     }
 }
